@@ -173,6 +173,60 @@ def mk_kernels(gi):
     return body
 
 
+def mk_backbone_reorganisation(gi):
+    g = GENERATORS[gi]
+
+    def body(ctx):
+        """the local desolvation (backbone reorganisation) term of a carboxylate next to two backbone C=O groups is the
+        same in a rotated frame: group centre and both C=O positions symbolic"""
+        import propka.energy as E
+        import propka.group as G
+
+        class Conf:
+            def __init__(self, t, b):
+                self.t, self.b = t, b
+
+            def get_backbone_reorganisation_groups(self):
+                return self.t
+
+            def get_backbone_co_groups(self):
+                return self.b
+        # one symbolic coordinate per C=O group (the carbon slides along an axis through the distances where the term
+        # switches on and saturates; the oxygen points back at the carboxylate), everything else concrete: the frame is rotated
+        # (binary fractions: every concrete difference is exact in doubles)
+        centre = (0.25, -0.25, 0.125)
+        cos = []
+        for i, (axis, off) in enumerate(((0, (-1.25, 0.125, 0.25)), (1, (0.125, -1.25, 0.125)))):
+            s = ctx.real('c%d' % i, 2.5, 8.0)
+            c = [1.0, 0.5, -0.75]
+            c[axis] = s
+            c = tuple(c)
+            o = tuple(c[k] + off[k] for k in range(3))
+            cos.append((c, o))
+        w = ctx.real('buried', 0, 1)
+
+        def world(f):
+            ta = H.atom('CG', 'ASP', 10, 'A', *f(centre))
+            tg = G.COOGroup(ta)
+            tg.x, tg.y, tg.z = f(centre)
+            tg.buried = w
+            bbs = []
+            for i, (c, o) in enumerate(cos):
+                ca = H.atom('C', 'ALA', 20 + i, 'A', *f(c))
+                oa = H.atom('O', 'ALA', 20 + i, 'A', *f(o))
+                bg = G.BBCGroup(ca)
+                bg.parameters = tg.parameters = H.params()
+                bg.x, bg.y, bg.z = f(c)          # the centre of a backbone C=O group is its carbon
+                bg.set_interaction_atoms([oa], [oa])
+                bbs.append(bg)
+            E.backbone_reorganization(None, Conf([tg], bbs))
+            return tg.energy_local
+        e0 = world(lambda p: p)
+        e1 = world(lambda p: rot(g, p))
+        ctx.claim('backbone-reorganisation-invariant', eq(e0, e1))
+    return body
+
+
 def mk_protonation_kernels(gi, case):
     g = GENERATORS[gi]
 
@@ -265,11 +319,11 @@ def mk_translate_text(name, pos):
     return body
 
 
-def mk_rotations(name, claim_tag=None):
+def mk_rotations(name, params=None):
     """the structure in each of the 24 grid rotations (no translation), compared with the pose of the file"""
     def body(ctx):
         r = ctx.choice('rotation', ROT24)
-        return mk_translate(name, (0,), 0.0, 0.0, False, rotation=r)(ctx)
+        return mk_translate(name, (0,), 0.0, 0.0, False, rotation=r, params=params)(ctx)
     return body
 
 
@@ -330,6 +384,11 @@ def obligations(tier):
                               bounds='micro-structure %s in each of the 24 axis-permuting proper rotations' % name,
                               claim_doc='as O1-translation, hydrogens compared after the same rotation', max_paths=200, split_input=('rotation', 8),
                               outside='known finding F11 for incomplete arginines (reported as KNOWN-FINDING)' if '~' in name else ''))
+    # the same with burial switched on: backbone reorganisation, Coulomb and iterative terms are then non-zero
+    for name in (['pair_GLU_ARG_TYR', 'pep8'] if tier == 'quick' else ['pair_GLU_ARG_TYR', 'pep8', 'pair_ASP_ARG', 'pair_LYS_ASP', 'pair_ASP_ASP', 'complex_ZN']):
+        obs.append(Obligation('O4-rotations[%s,buried]' % name, mk_rotations(name, M.BURIED), code=code_pipe + ['propka/energy.py:backbone_reorganization', 'propka/energy.py:radial_volume_desolvation'],
+                              bounds='micro-structure %s with Nmin/Nmax lowered to 6/30 in each of the 24 axis-permuting proper rotations' % name,
+                              claim_doc='as O1-translation (the local desolvation / backbone-reorganisation term depends on heavy atoms only)', max_paths=200, split_input=('rotation', 8)))
     # a protein-ligand-ion micro-complex: the heavy-atom clauses (bonds incl. protein-ligand, protein / ligand / ion groups, desolvation, buried)
     for ax, axn in (axes[:1] if tier == 'quick' else axes[:3]):
         for params, ptag in (((M.BURIED, ',buried'),) if tier == 'quick' else ((None, ''), (M.BURIED, ',buried'))):
@@ -391,6 +450,10 @@ def obligations(tier):
                                         'propka/vector_algebra.py:Vector.rescale'],
                                   bounds='%s: fully symbolic neighbour positions in [-2,2]^3 (trigonal: both; tetrahedral: one, the other two fixed), not collinear/coplanar with the centre' % case,
                                   claim_doc='constructed position (before rounding) is equivariant', query_timeout_ms=60000, wall_s=300))
+    for gi in range(3):
+        obs.append(Obligation('O2-backbone-reorganisation-equivariance[generator%d]' % gi, mk_backbone_reorganisation(gi), code=['propka/energy.py:backbone_reorganization', 'propka/energy.py:angle_distance_factors'],
+                              bounds='a carboxylate and two backbone C=O groups, each carbon sliding along an axis (2.5 to 8 A from the centre plane, the oxygen pointing back), buried fraction in [0,1]; generator %d of the rotation group' % gi,
+                              claim_doc='the local desolvation term is the same in the rotated frame', query_timeout_ms=60000, wall_s=170 if tier == 'quick' else 900, max_paths=400))
     obs.append(Obligation('O2-planarity-invariance', o_planarity, code=['propka/ligand.py:are_atoms_planar'],
                           bounds='4 atoms, two fixed, two symbolic; 3 generators', claim_doc='planarity verdict invariant', query_timeout_ms=60000))
     return obs
